@@ -45,6 +45,10 @@ func checkC10(h *History, vs []*opView) {
 			}
 			a, known := allowed[q.Token]
 			if !known {
+				// a question that no client asked (a token of a garbage operation aside)
+				if !strings.HasPrefix(peersTokenOrG(q.Name), "g") {
+					h.S.Fail(prop, "question-nobody-asked", "upstream %s received a query for %s type %d class %d, which no client asked", tag, q.Name, q.Type, q.Class)
+				}
 				continue
 			}
 			if !a[tag] {
@@ -474,3 +478,13 @@ func checkC01(h *History, vs []*opView) {
 }
 
 var _ = peers.TokenOf
+
+// peersTokenOrG returns the first label lower-cased (garbage operations use a
+// first label starting with 'g').
+func peersTokenOrG(n refdns.Name) string {
+	ls := n.Labels()
+	if len(ls) == 0 {
+		return ""
+	}
+	return strings.ToLower(string(ls[0]))
+}
